@@ -360,6 +360,30 @@ func c20Wrappers(p *Prog, r *Report) {
 			}
 		}
 		r.Check(ok, "C20.R3", "utils.(*ProxyWriter).WriteHeader: forwards the status unchanged", p.FuncPos(m), "p.w.WriteHeader(code) on every path", "WriteHeader does not forward the same status to the wrapped writer on every path")
+		// ... and records it: the status the middlewares read back (StatusCode()) is the LAST one written, i.e. the
+		// final status after any 1xx informational head
+		okRec := false
+		for _, b := range m.Blocks {
+			for _, in := range b.Instrs {
+				if st, isSt := in.(*ssa.Store); isSt {
+					if nt, _, base, okf := fieldOf(st.Addr); okf && nt == pw && base == ssa.Value(m.Params[0]) && stripConv(st.Val) == ssa.Value(m.Params[1]) && uncond(m, st) {
+						okRec = true
+					}
+				}
+			}
+		}
+		r.Check(okRec, "C20.R3", "utils.(*ProxyWriter).WriteHeader: records every status it is given", p.FuncPos(m), "p.code = code on every path", "the recorded status is not overwritten by every WriteHeader call: after a 1xx head the middlewares (breaker metrics, tracer, rebalancer) keep seeing the informational code instead of the final status")
+	}
+	// the constructors wrap exactly the writer they are given (unwrapping a nested ProxyWriter makes the outer
+	// middleware blind to the status the inner one relays)
+	for _, fn := range p.PkgFuncs("utils") {
+		if fn.Parent() != nil || fn.Blocks == nil || fn.Signature.Recv() != nil || fn.Signature.Results().Len() != 1 || derefNamed(fn.Signature.Results().At(0).Type()) != pw {
+			continue
+		}
+		for _, st := range FieldStores(fn, pw, inner) {
+			_, isParam := stripConv(st.Val).(*ssa.Parameter)
+			r.Check(isParam && uncond(fn, st), "C20.R3", "utils."+fn.Name()+": wraps the writer it is given", p.InstrPos(st), "w := parameter", "the constructor does not store its writer argument as the wrapped writer on every path (e.g. it unwraps a nested ProxyWriter): the outer recording writer is bypassed")
+		}
 	}
 	if m := p.MethodOf(pw, "Header"); m != nil {
 		r.Fn(FName(m))
